@@ -99,6 +99,7 @@ def _w_term(res, p):
     if fv:
         _cand(res, "term-evolution", f"circuit for {c}*{ops} differs from exp(-i t c P) at {fv[0]}", p, fv[1])
     res.sample({"term": f"{c}*{ops}", "n": n, "gates": len(circ.operations)})
+    _ground(res, "term-evolution-numeric", _numeric_term_bad(ops, c), f"circuit for {c}*{ops} at numeric times", p)
     if p.get("twin"):
         res.d["vacuity_twins"] += 1
         O2 = oracle_term(ops, -c if c else 1, n, T)
@@ -107,6 +108,104 @@ def _w_term(res, p):
             res.d["vacuity_ok"] += 1
         else:
             res.herr("vacuity twin (opposite sign of the coefficient) was not refuted")
+
+
+NUM_TIMES = [0.37, -2.5, 0, 3, 12.75, 0.0]
+
+
+def _np_term(ops, c, n, t):
+    return np.cos(t * c) * np.eye(2**n) - 1j * np.sin(t * c) * np_pauli(ops, n)
+
+
+def _ground(res, clause, bad, what, p):
+    res.d["ground_instances"] += 1
+    res.ob(1)
+    if bad:
+        _cand(res, clause, f"{what}: {bad}", p)
+    else:
+        res.ob(0, 1, "ground-numeric")
+
+
+def _numeric_term_bad(ops, c):
+    """numeric twin (ground): the time a plain Python number (float, int, zero, negative) - the code path a symbolic run never takes"""
+    from orquestra.quantum.evolution import time_evolution_for_term
+
+    n = width(ops)
+    for t in NUM_TIMES:
+        circ = time_evolution_for_term(term_from(ops, c), t)
+        if circ.n_qubits != n:
+            return f"t={t!r}: circuit width {circ.n_qubits} vs {n}"
+        got = np.array(circ.to_unitary(), dtype=complex) if circ.operations else np.eye(2**n)
+        d = float(np.abs(got - _np_term(ops, c, n, t)).max())
+        if d > 1e-9:
+            return f"t={t!r}: differs from exp(-i t c P) by {d:.3g}"
+    return None
+
+
+def _numeric_sum_bad(terms, steps):
+    from orquestra.quantum.evolution import time_evolution
+    from orquestra.quantum.operators import PauliSum
+
+    n = max([width(ops) for ops, _ in terms] + [0])
+    H = PauliSum([term_from(ops, c) for ops, c in terms])
+    for t in NUM_TIMES:
+        circ = time_evolution(H, steps * t, n_steps=steps)
+        if circ.n_qubits != n:
+            return f"t={t!r}: circuit width {circ.n_qubits} vs {n}"
+        if n == 0:
+            continue
+        got = np.array(circ.to_unitary(), dtype=complex) if circ.operations else np.eye(2**n)
+        want = np.eye(2**n, dtype=complex)
+        for _ in range(steps):
+            for ops, c in terms:
+                if ops:
+                    want = _np_term(ops, c, n, t) @ want
+        d = float(np.abs(got - want).max())
+        if d > 1e-9:
+            return f"total time {steps}*{t!r}: differs from the ordered product of per-term evolutions by {d:.3g}"
+    return None
+
+
+def _numeric_deriv_bad(terms, steps):
+    """d/dt <psi|U(t)^+ O U(t)|psi> for a fixed dense observable and state, at numeric times: factor-weighted sum over the
+    derivative circuits vs the analytic derivative of the ordered product (product rule on closed-form factors)."""
+    from orquestra.quantum.evolution import time_evolution_derivatives
+    from orquestra.quantum.operators import PauliSum
+
+    n = max(width(ops) for ops, _ in terms)
+    N = 2**n
+    H = PauliSum([term_from(ops, c) for ops, c in terms])
+    j = np.arange(N)
+    psi = ((j * 5 + 3) % 7 - 3) / 4.0 + 1j * ((j * 3 + 1) % 5 - 2) / 4.0
+    psi = psi / np.linalg.norm(psi)
+    A = ((np.add.outer(j * 3, j * 5) % 11) - 5) / 8.0 + 1j * ((np.add.outer(j * 7, j) % 5) - 2) / 8.0
+    O = A + A.conj().T
+    seq = [(ops, c) for _ in range(steps) for ops, c in terms if ops]
+    for T_ in (0.37, -2.5, 3, 12.75):
+        t = T_  # per-step time; total time = steps * t
+        dcircs, factors = time_evolution_derivatives(H, steps * t, n_steps=steps)
+        got = 0.0
+        for f, dc in zip(factors, dcircs):
+            Uk = np.array(dc.to_unitary(), dtype=complex)
+            v = Uk @ psi
+            got += float(f) * np.vdot(v, O @ v)
+        mats = [_np_term(ops, c, n, t) for ops, c in seq]
+        dmats = [(-1j * c) * np_pauli(ops, n) @ _np_term(ops, c, n, t) for ops, c in seq]  # d/dt of each factor (per-step time)
+        U = np.eye(N, dtype=complex)
+        for M in mats:
+            U = M @ U
+        dU = np.zeros((N, N), dtype=complex)
+        for k in range(len(seq)):
+            X = np.eye(N, dtype=complex)
+            for i, M in enumerate(mats):
+                X = (dmats[i] if i == k else M) @ X
+            dU += X
+        dU = dU / steps  # d/d(total time)
+        v, dv = U @ psi, dU @ psi
+        want = np.vdot(dv, O @ v) + np.vdot(v, O @ dv)
+        if abs(got - want) > 1e-8 * (1 + abs(want)):
+            return f"total time {steps}*{t!r}: weighted sum over derivative circuits {got:.9g} vs d/dt of the expectation {want:.9g}"
+    return None
 
 
 def _w_term_wide(res, p):
@@ -183,6 +282,7 @@ def _w_sum(res, p):
     if fv:
         _cand(res, "sum-evolution", f"time_evolution({p['terms']}, steps={steps}) is not the ordered product of per-term evolutions for time/steps ({fv[0]})", p, fv[1])
     res.sample({"hamiltonian": str(p["terms"]), "steps": steps})
+    _ground(res, "sum-evolution-numeric", _numeric_sum_bad(p["terms"], steps), f"time_evolution({p['terms']}, steps={steps}) at numeric times", p)
 
 
 def _w_deriv(res, p):
@@ -224,6 +324,7 @@ def _w_deriv(res, p):
     if fv:
         _cand(res, "derivative", f"factor-weighted sum over the derivative circuits is not d/dt of the evolution for {p['terms']} steps={steps} ({fv[0]})", p, fv[1])
     res.sample({"derivative_of": str(p["terms"]), "steps": steps, "circuits": len(dcircs), "factors": [float(f) for f in factors]})
+    _ground(res, "derivative-numeric", _numeric_deriv_bad(p["terms"], steps), f"derivative circuits of {p['terms']} steps={steps} at numeric times", p)
 
 
 def _w_reject(res, p):
@@ -346,6 +447,15 @@ def replay(data):
             {"term": _w_term, "wide-term": _w_term_wide, "sum": _w_sum, "deriv": _w_deriv, "reject": _w_reject}[kind](r, dict(p, label="replay"))
             c = [c for c in r.d["candidates"] if c["clause"] == clause]
             return bool(c), (c[0]["what"] if c else "no violation on re-execution")
+        if clause == "term-evolution-numeric":
+            bad = _numeric_term_bad(p["ops"], p["coeff"])
+            return bool(bad), bad or "ok"
+        if clause == "sum-evolution-numeric":
+            bad = _numeric_sum_bad(p["terms"], p["steps"])
+            return bool(bad), bad or "ok"
+        if clause == "derivative-numeric":
+            bad = _numeric_deriv_bad(p["terms"], p["steps"])
+            return bool(bad), bad or "ok"
         if clause == "term-evolution-wide":
             ops, c = p["ops"], p["coeff"]
             n = width(ops)
